@@ -206,6 +206,22 @@ Definition prop_step (ids : list sid) (accts : list addr) (s : state) (op0 : op)
   tag (records_backed ids cur) "prop:quarantine record without the token in escrow" ++
   tag (delete_burns op0 cur) "prop:deleted scope keeps its token".
 
+(** After a step on which only the correspondence failed, the property's checkers go on alone: they
+    read the model state only for what the history's own inputs determine (markers, sanctions, block
+    time), so the first "prop:" failure of the rest of the history is still meaningful. *)
+Fixpoint props_only (ids : list sid) (accts : list addr) (s : state) (prev : obs) (i : N)
+  (steps : list (op * obs)) : list string :=
+  match steps with
+  | [] => []
+  | (op0, o) :: rest =>
+      match prop_step ids accts s op0 prev o with
+      | [] => props_only ids accts (run_op s op0) o (N.succ i) rest
+      | e => map (fun t => (t ++ " @step " ++ N_to_string i)%string) e
+      end
+  end.
+
+Definition is_prop_tag (t : string) : bool := prefix "prop:" t.
+
 Fixpoint check_hist (ids : list sid) (accts : list addr) (s : state) (prev : obs) (i : N)
   (steps : list (op * obs)) : list string :=
   match steps with
@@ -214,7 +230,8 @@ Fixpoint check_hist (ids : list sid) (accts : list addr) (s : state) (prev : obs
       let '(s', ok) := step s op0 in
       match corr_step ids accts s' ok o ++ prop_step ids accts s op0 prev o with
       | [] => check_hist ids accts s' o (N.succ i) rest
-      | e => map (fun t => (t ++ " @step " ++ N_to_string i)%string) e
+      | e => map (fun t => (t ++ " @step " ++ N_to_string i)%string) e ++
+             (if existsb is_prop_tag e then [] else props_only ids accts s' o (N.succ i) rest)
       end
   end.
 
